@@ -133,6 +133,8 @@ HISTORY = {
     "C13/H7-m2": ("missed", "keyless messages in the concurrent hash unit (+ panics inside Balance are reported as such)"),
     "C10/H10-m1": ("missed", "Conn programs against a broker limited to Produce v2, with SetRequiredAcks next to the writes"),
     "C10/H10-m2": ("missed", "client variant multi-bootstrap (kafka.TCP with two addresses)"),
+    "C11/H9-m2": ("flaky", "the operation after the refused ApiVersions exchange blocks forever: first seen as a violation only when a unit with a watchdog met it, otherwise as a unit timeout (exit 2); every operation of a C11 tuple now runs under a watchdog (operation-never-returns)"),
+    "C16/H10-m2": ("flaky", "Write spins forever: ended as a unit timeout (exit 2) until history steps and uses ran under a watchdog (hang/...)"),
     # round 8
     "C01/I1-m1": ("missed", "wsim: MaxAttempts left unset or negative (the default of 10 applies)"),
     "C01/I1-m2": ("missed", "wsim: brokers limited to Produce v0 / v1 (C04's response-decode unit reported it too)"),
